@@ -453,14 +453,12 @@ std::unique_ptr<IBox> make_kind(const Config& c)
             return std::make_unique<Box<KIND, std::string, std::string, Y>>(c);
         return std::make_unique<Box<KIND, std::string, std::string, N>>(c);
     }
-#ifdef VERIF_WITH_RAW
-    if (c.types == T_RAW)
+    if (c.types == T_BIG)
     {
         if (c.sync)
-            return std::make_unique<Box<KIND, uint64_t, uint64_t, Y>>(c);
-        return std::make_unique<Box<KIND, uint64_t, uint64_t, N>>(c);
+            return std::make_unique<Box<KIND, uint64_t, vv::BigTracked, Y>>(c);
+        return std::make_unique<Box<KIND, uint64_t, vv::BigTracked, N>>(c);
     }
-#endif
     if (c.sync)
         return std::make_unique<Box<KIND, uint64_t, vv::Tracked, Y>>(c);
     return std::make_unique<Box<KIND, uint64_t, vv::Tracked, N>>(c);
